@@ -736,6 +736,14 @@ def r039(prog, chk):
 
 
 MUTANTS = [
+    M("BMP / supplementary partition built by one loop", "ufo2ft/outlineCompiler.py", "BaseOutlineCompiler.setupTable_cmap",
+      "nonBMP = {k: v for k, v in self.unicodeToGlyphNameMapping.items() if k > 65535}\nif nonBMP:\n    mapping = {k: v for k, v in self.unicodeToGlyphNameMapping.items() if k <= 65535}\nelse:\n    mapping = dict(self.unicodeToGlyphNameMapping)",
+      "mapping, nonBMP = {}, {}\nfor k, v in self.unicodeToGlyphNameMapping.items():\n    if k > 65535:\n        nonBMP[k] = v\n    else:\n        mapping[k] = v", kind="equiv"),
+    M("loop-built partition, format 12 gets a fresh dict and the UVS decision still consults the supplementary part only (seeded C03o)", "ufo2ft/outlineCompiler.py", "BaseOutlineCompiler.setupTable_cmap",
+      "nonBMP.update(mapping)", "fullMapping = {**mapping, **nonBMP}", rule="R03.6",
+      also=(("ufo2ft/outlineCompiler.py", "BaseOutlineCompiler.setupTable_cmap", "cmap12_0_4.cmap = nonBMP", "cmap12_0_4.cmap = fullMapping"),
+            ("ufo2ft/outlineCompiler.py", "BaseOutlineCompiler.setupTable_cmap", "cmap12_3_10.cmap = nonBMP", "cmap12_3_10.cmap = fullMapping"),
+            ("ufo2ft/outlineCompiler.py", "BaseOutlineCompiler.setupTable_cmap", "glyphName == mapping[value]", "glyphName == mapping.get(value)"))),
     M("existing dotted circle searched by primary code point only (seeded C03j)", "ufo2ft/filters/dottedCircle.py", "DottedCircleFilter.check_dotted_circle",
       "9676 in g.unicodes", "g.unicode == 9676", rule="R03.11"),
     M("kept names reserved only when the loop reaches them (seeded C03h)", "ufo2ft/postProcessor.py", "PostProcessor._build_production_names",
